@@ -32,6 +32,14 @@ def jobs(tier):
     # 4. a request over a variable that became basic: assert 2x + y <= 4 and x + y >= 3 (pivots), then request on x and on y
     for rel in range(5):
         scs.append(([(1, 2, 1, 4, 1, 0), (3, 1, 1, 3, 1, 0), (rel + 10, 1, 0, 1, 1, 0), (rel + 10, 0, 1, 2, 1, 0)], [(ROOT, 0, 1), (ROOT, 1, 1), (REQ, 2, 1), (REQ, 3, 1), (A, 2, 1), (A, 3, 0)]))
+    # 5. requests over a derived variable z = new_var(a*x + b*y + k): z is basic in the tableau and its row carries a constant term
+    for rel in range(5):
+        for t in ((0, 1, 2, 3) if tier != 'quick' else (0, 1)):
+            scs.append(([(rel, 1, 0, 5, 1, 100 + t), (rel, 1, 0, 5, 1, 100 + t), (4 - rel, -1, 0, -5, 1, 100 + t)], []))
+        scs.append(([(rel, 2, 1, 1, 2, 102)], []))
+        # decided (or not) by root bounds 3 <= x <= 4, i.e. 6 <= z <= 7 for z = x + 3
+        for b in ((5, 6, 7, 8) if tier != 'quick' else (5, 7)):
+            scs.append(([(3, 1, 0, 3, 1, 0), (1, 1, 0, 4, 1, 0), (rel + 10, 1, 0, b, 1, 100)], [(ROOT, 0, 1), (ROOT, 1, 1), (REQ, 2, 1), (A, 2, 1)]))
     js = []
     for i, (rels, h) in enumerate(scs):
         js.append(Job('request%04d' % i, 'C09_lra.cpp', 'h_lra', LRA_UNITS, 100, params=L.scen(rels, h), timeout=240, mem=6,
